@@ -165,7 +165,8 @@ def _roundtrip_task(payload):
 
 def _opseq_task(payload):
     """All operation sequences of length <= 4 over {w1, w2, read, mtime} on one store kind."""
-    kind, use_pathlib = payload
+    kind, use_pathlib = payload[:2]
+    foreign = len(payload) > 2 and payload[2]
     from uberjob import stores
 
     vals = {"text": ("one", "two\r"), "json": ([1], {"a": None}), "pickle": ((1,), Pt(2)), "binary": (b"1", b"\x00"), "touch": (None, None)}[kind]
@@ -182,21 +183,34 @@ def _opseq_task(payload):
                 st = cls(pathlib.Path(p) if use_pathlib else p)
                 cur = "<none>"
                 last_t = None
+                if foreign:
+                    # something else (another store type, an editor) left non-empty content at this path
+                    with open(p, "wb") as fh:
+                        fh.write(b'{"foreign": "content"}\n')
+                    cur = "<foreign>"
                 for op in seq:
                     if op in ("w1", "w2"):
                         cur = vals[0] if op == "w1" else vals[1]
                         st.write(cur)
                     elif op == "read":
-                        if cur == "<none>":
+                        if cur == "<foreign>":
+                            try:
+                                st.read()
+                            except Exception:  # noqa
+                                pass
+                        elif cur == "<none>":
                             try:
                                 st.read()
                                 fails.append(("read-empty", "read of a never-written store returned a value", seq))
                             except Exception:  # noqa
                                 pass
                         else:
-                            back = st.read()
-                            if not same(back, cur):
-                                fails.append(("roundtrip", f"read returned {back!r}, last written {cur!r}", seq))
+                            try:
+                                back = st.read()
+                                if not same(back, cur):
+                                    fails.append(("roundtrip", f"read returned {back!r}, last written {cur!r}", seq))
+                            except Exception as e:  # noqa
+                                fails.append(("roundtrip", f"read after write raised {e!r} (last written {cur!r}{', path held foreign content before' if foreign else ''})", seq))
                     t = st.get_modified_time()
                     if (t is None) != (cur == "<none>"):
                         fails.append(("mtime-none", f"get_modified_time() is {t} but written={cur != '<none>'}", seq))
@@ -407,6 +421,7 @@ def run(tier):
     shards.append(("touch", None, False, True, [None]))
     res = common.pmap(_roundtrip_task, shards)
     ops = [(k, pl) for k in ("text", "json", "pickle", "binary", "touch") for pl in (False, True)]
+    ops += [(k, False, True) for k in ("text", "json", "pickle", "binary", "touch")]
     res2 = common.pmap(_opseq_task, ops)
     viols = []
     n = 0
@@ -423,7 +438,7 @@ def run(tier):
             viols.append(common.Violation(PROP, f"{sh[0]} {key} {_classify(v)}", f"{what}: value {v!r:.80}: {msg}",
                                           {"engine": "E3", "kind": sh[0], "encoding": sh[1], "pathlib": sh[2], "mounted": sh[3], "value": repr(v)[:200]}))
     n2 = 0
-    for (k, pl), r in zip(ops, res2):
+    for (k, pl, *_), r in zip(ops, res2):
         n2 += r["n"]
         for key, msg, seq in r["fails"]:
             viols.append(common.Violation(PROP, f"{k} opseq {key} {_classify(vals_of(k))}", f"{k} store, sequence {seq}: {msg}", {"engine": "E3-ops", "kind": k, "pathlib": pl, "seq": seq}))
